@@ -331,15 +331,23 @@ def run(ctx):
         if "|#" in order and "," in order and in_cycle(b, order["|#"].bb):
             W = order["|#"].bb
             flag = None
+            positional = None
             for s_ in range(b.n):
                 t_ = b.term(s_)
                 if t_["k"] == "switch" and t_.get("dty") == "bool" and in_cycle(b, s_) and any(b.edge_dominates((s_, tg), W) for _lab, tg in b.switch_edges(s_)):
                     l_ = _root_local(b, t_["discr"])
                     if l_ is not None and any(b.edge_dominates((s_, tg), order[","].bb) for _lab, tg in b.switch_edges(s_)):
-                        flag = l_
+                        dsym = strip_sym(sy.operand(t_["discr"]))
+                        if len(b.defs().get(l_, [])) >= 2:
+                            flag = l_  # a mutable "already wrote a tag" variable
+                        elif dsym[0] == "bin" and dsym[1] in ("Eq", "Ne") and any(strip_sym(x)[:3] == ("const", "int", 0) for x in dsym[2:4]) and "numerate" in repr(dsym):
+                            # decided by position: `|#` for index 0 of the enumerated tags, `,` for the others
+                            first_edge = [tg for lab, tg in b.switch_edges(s_) if (lab in (1, True)) == (dsym[1] == "Eq") and lab != "otherwise"]
+                            first_edge = first_edge or [tg for lab, tg in b.switch_edges(s_) if lab == "otherwise" and dsym[1] == "Eq" and [a["v"] for a in t_["arms"]] == [0]]
+                            positional = any(b.edge_dominates((s_, tg), W) for tg in first_edge)
             if flag is None:
                 g_ = [sym_str(dd)[:60] for dd, _lab in gates(b, W)]
-                idx_idiom = any("enumerate" in x.lower() or "peek" in x.lower() for x in g_)
+                idx_idiom = bool(positional)
                 chk.ob("C09.e", f"{wt.path} [tag section opened once]", idx_idiom, "`|#` for the first tag, `,` for the others (decided by position)" if idx_idiom else f"cannot see what decides between `|#` and `,` in the tag loop (gates {g_})", order["|#"].loc(), nontrivial=False)
             else:
                 sets = {i for i, _k, st in b.stmts() if st["k"] == "assign" and st["p"]["l"] == flag and not st["p"].get("pr") and st["rv"]["k"] == "use" and (st["rv"].get("a") or {}).get("const", {}).get("bool") is True}
